@@ -539,7 +539,7 @@ class SymNP:
     def asarray(a, dtype=None, *args, **kw):
         if hasattr(a, "__symarray__"):
             a = a.__symarray__()
-        if isinstance(a, SArr):
+        if isinstance(a, (SArr, SMat)):
             return a if dtype is None else a.astype(dtype)
         if isinstance(a, (list, tuple)) and any(
                 _is_sym(x) or isinstance(x, Tok) for x in a):
@@ -550,7 +550,7 @@ class SymNP:
     def array(a, dtype=None, copy=True, *args, **kw):
         if hasattr(a, "__symarray__"):
             a = a.__symarray__()
-        if isinstance(a, SArr):
+        if isinstance(a, (SArr, SMat)):
             if copy is False or copy is None:
                 return a if dtype is None else a.astype(dtype)
             r = a.copy()
@@ -699,13 +699,17 @@ class SymNP:
             return True
         return real_np.isscalar(x)
 
-    @staticmethod
-    def int64(x):
-        return x if _is_sym(x) else real_np.int64(x)
+    class int64(real_np.int64):
+        def __new__(cls, x=0):
+            return x if _is_sym(x) else real_np.int64(x)
 
-    @staticmethod
-    def float64(x):
-        return x if _is_sym(x) else real_np.float64(x)
+    class float64(real_np.float64):
+        def __new__(cls, x=0):
+            return x if _is_sym(x) else real_np.float64(x)
+
+    class uint32(real_np.uint32):
+        def __new__(cls, x=0):
+            return x if _is_sym(x) else real_np.uint32(x)
 
     @staticmethod
     def abs(x):
@@ -734,3 +738,144 @@ def _elems(a):
     if hasattr(a, "__symarray__"):
         a = a.__symarray__()
     return list(a)
+
+
+class SMat:
+    """2-D array (rows x cols) with symbolic entries, concrete shape"""
+    __array_priority__ = 1000
+
+    def __init__(self, rows, dtype=float):
+        self.rows = [list(r) for r in rows]
+        self.dtype = real_np.dtype(dtype)
+        self.ncols = len(self.rows[0]) if self.rows else 2
+
+    @property
+    def shape(self):
+        return (len(self.rows), self.ncols)
+
+    ndim = 2
+
+    @property
+    def size(self):
+        return len(self.rows) * self.ncols
+
+    def __len__(self):
+        return len(self.rows)
+
+    def __iter__(self):
+        return iter([SArr(r, self.dtype) for r in self.rows])
+
+    def copy(self):
+        return SMat(self.rows, self.dtype)
+
+    def astype(self, dtype, copy=True):
+        return SMat(self.rows, dtype)
+
+    def tolist(self):
+        return [list(r) for r in self.rows]
+
+    def _rowsel(self, idx):
+        n = len(self.rows)
+        if isinstance(idx, slice):
+            return list(range(*slice(_conc_int(idx.start),
+                                     _conc_int(idx.stop),
+                                     _conc_int(idx.step)).indices(n)))
+        i = _conc_int(idx)
+        if i < -n or i >= n:
+            raise IndexError("index %d is out of bounds for axis 0 with size"
+                             " %d" % (i, n))
+        return i % n
+
+    def __getitem__(self, idx):
+        if isinstance(idx, tuple):
+            r, c = idx
+            rs = self._rowsel(r)
+            if isinstance(rs, list):
+                if isinstance(c, slice):
+                    cols = list(range(*c.indices(self.ncols)))
+                    return SMat([[self.rows[i][j] for j in cols] for i in rs],
+                                self.dtype)
+                return SArr([self.rows[i][_conc_int(c)] for i in rs],
+                            self.dtype)
+            if isinstance(c, slice):
+                return SArr(self.rows[rs][c], self.dtype)
+            return self.rows[rs][_conc_int(c)]
+        rs = self._rowsel(idx)
+        if isinstance(rs, list):
+            return SMat([self.rows[i] for i in rs], self.dtype)
+        return SArr(self.rows[rs], self.dtype)
+
+    def __setitem__(self, idx, val):
+        if isinstance(idx, tuple):
+            r, c = idx
+            rs = self._rowsel(r)
+            if isinstance(rs, list) and not isinstance(c, slice):
+                c = _conc_int(c)
+                vals = list(val) if _ndim(val) else [val] * len(rs)
+                if len(vals) != len(rs):
+                    raise ValueError("could not broadcast input array from "
+                                     "shape (%d,) into shape (%d,)" % (
+                                         len(vals), len(rs)))
+                for i, v in zip(rs, vals):
+                    self.rows[i][c] = v
+                return
+            if not isinstance(rs, list) and not isinstance(c, slice):
+                self.rows[rs][_conc_int(c)] = val
+                return
+        raise NotModelled("SMat assignment %r" % (idx,))
+
+    def __array__(self, *a, **k):
+        raise NotModelled("conversion of a symbolic matrix to real numpy")
+
+
+def _np_zeros(shape, dtype=float):
+    if isinstance(shape, tuple) and len(shape) == 2:
+        n, m = _conc_int(shape[0]), _conc_int(shape[1])
+        z = False if real_np.dtype(dtype) == bool else 0
+        return SMat([[z] * m for _ in range(n)], dtype)
+    return SymNP._zeros1(shape, dtype)
+
+
+SymNP._zeros1 = SymNP.zeros
+SymNP.zeros = staticmethod(_np_zeros)
+
+
+def _np_invert(a, out=None):
+    r = ~SymNP.asarray(a)
+    if out is not None:
+        out.elems[:] = r.elems
+        out.version += 1
+        return out
+    return r
+
+
+SymNP.invert = staticmethod(_np_invert)
+
+
+def _allclose(a, b, rtol=1e-05, atol=1e-08, equal_nan=False):
+    from .symx import toreal
+    al = list(a) if _ndim(a) else [a]
+    bl = list(b) if _ndim(b) else [b]
+    if len(al) != len(bl):
+        if len(al) == 1:
+            al = al * len(bl)
+        elif len(bl) == 1:
+            bl = bl * len(al)
+        else:
+            raise ValueError("operands could not be broadcast together")
+    conds = []
+    for x, y in zip(al, bl):
+        if _ndim(x) or _ndim(y):
+            conds.append(tobool(_asb(_allclose(x, y, rtol, atol))))
+            continue
+        xe, ye = toreal(_num(x)), toreal(_num(y))
+        d = xe - ye
+        ad = z3.If(d < 0, -d, d)
+        ay = z3.If(ye < 0, -ye, ye)
+        conds.append(ad <= toreal(atol) + toreal(rtol) * ay)
+    return SBool(z3.And(conds)) if conds else True
+
+
+SymNP.allclose = staticmethod(_allclose)
+SymNP.array_equal = staticmethod(
+    lambda a, b: _allclose(a, b, rtol=0, atol=0))
